@@ -86,6 +86,7 @@ def run(ctx):
     hex_escape(ctx, core)
     member_helpers(ctx, ctx.facts("effects.cpp", "A", ()))
     dynamic_level_byte(ctx, core)
+    decode_routing(ctx, core)
 
 
 def matrix_witness():
@@ -340,13 +341,31 @@ def header(ctx, facts):
         ok = len(eseq) == 4 and eseq == dtypes and adv == [x[1] for x in eseq]
         ctx.ob("C04.R3a", "_encode_header<%s>:order" % f.name.split("LoggerImpl<")[1].split(">")[0], ok,
                "the record header is written as %s and read as %s (same types, sizes and order; cursor advanced by each size: %s)" % (eseq, dtypes, adv), fn=f)
-    # advance of each prologue read equals its size
-    for (c, ty, n, name) in prologue:
-        nxt = [x for x in dec.walk() if x["k"] == "CompoundAssignOperator" and x["op"] == "+=" and var_ref(x["lhs"]) == cursor]
-        after = [x for x in nxt if g.exists_path(g.positions(c), g.positions(x))]
-        first = min(after, key=lambda x: (int(x["loc"].split(":")[1]), int(x["loc"].split(":")[2]))) if after else None
-        ctx.ob("C04.R3b", "decode-prologue:%s" % name, first is not None and const_val(first["rhs"]) == n,
-               "after reading %s (%s bytes) the read position advances by the same amount" % (name, n), loc=c["loc"], fn=dec)
+    # every read from the cursor is followed, before the cursor is used again, by exactly one advance of the size just read
+    advs = [x for x in dec.walk() if x["k"] == "CompoundAssignOperator" and x["op"] == "+=" and var_ref(x["lhs"]) == cursor]
+    adv_pos = {p_: x for x in advs for p_ in g.positions(x)}
+    uses = set()
+    for x in dec.walk():
+        if x["k"] == "DeclRefExpr" and x.get("did") == cursor:
+            par = dec.parent(x)
+            # the advance statements themselves are not 'uses'
+            if any(in_subtree(x, a) for a in advs):
+                continue
+            for p_ in g.positions(x) or []:
+                uses.add(p_)
+    for (c, ty, n, name) in dseq:
+        cp_ = g.positions(c)
+        own = set(p_ for x in walk(c) for p_ in (g.positions(x) or [])) | set(cp_)
+        later_uses = [u for u in uses if u not in own and g.exists_path(cp_, [u])]
+        reach_wo_use = g.reach(cp_, avoid_nodes=[u for u in later_uses])
+        mine = [p_ for p_ in adv_pos if p_ in reach_wo_use]
+        at_least = not g.exists_path(cp_, later_uses + [g.exit_node], avoid_nodes=list(adv_pos)) if (later_uses or True) else True
+        sizes = sorted(set(const_val(adv_pos[p_]["rhs"]) for p_ in mine))
+        twice = any(g.exists_path([a], [b], avoid_nodes=later_uses) for a in mine for b in mine if a != b) or \
+            any(g.exists_path([a], [a], avoid_nodes=later_uses) for a in mine)
+        ctx.ob("C04.R3b", "decode:%s:advance" % name, bool(mine) and at_least and sizes == [n] and not twice,
+               "after reading %s (%s bytes) the read position advances by exactly that amount, once, before it is used again "
+               "(advances found: %s, on every path: %s, twice: %s)" % (name, n, sizes, at_least, twice), loc=c["loc"], fn=dec)
     # constant part of the reserved size = header size; dynamic level
     for f in facts.need("quill::LoggerImpl::log_statement", "A", floor=8):
         targs = f.rec.get("targs") or []
@@ -389,6 +408,71 @@ def header(ctx, facts):
     rr_ok = all(any(re.search(r"log_statement<false, false, unsigned long, const std::(__cxx11::)?basic_string<char", c["callee"]) for c in f.calls(r"log_statement<")) for f in rr)
     ctx.ob("C04.R3f", "control-records", ok and fr_ok and rr_ok and bool(fr) and bool(rr),
            "flush record = one 8-byte word on both sides; logger-removal record = 8-byte word then a std::string on both sides", fn=dec)
+
+
+def _reach_both(g, allowed, own, pb):
+    """is push_back reachable from the entry inside the node set `allowed` without passing a node of `own`?"""
+    seen, todo = set(), [g.entry_node]
+    own = set(own)
+    pbs = set(pb)
+    while todo:
+        x = todo.pop()
+        if x in seen or x not in allowed or x in own:
+            continue
+        seen.add(x)
+        if x in pbs:
+            return True
+        for (y, _l) in g.succ.get(x, ()):
+            todo.append(y)
+    return False
+
+
+def decode_routing(ctx, facts):
+    """R3g/R3h: which kind of record is decoded how (the reader's side of the control-record layouts), and that a decoded statement
+    gets its text"""
+    from rules.common import enum_edges, only_when, never_when
+    dec = facts.need("quill::detail::BackendWorker::_populate_transit_event_from_frontend_queue", "A")[0]
+    g = dec.g
+    cursor = dec.rec["params"][0]["did"]
+    ind = g.pos_of(lambda n: isnode(n) and n.get("k") == "CallExpr" and n.get("indirect"))
+    words = {}
+    for c in dec.calls(r"^(std::)?memcpy$"):
+        if var_ref(c["args"][1]) != cursor:
+            continue
+        d = strip(c["args"][0], casts=True)
+        if isnode(d) and d["k"] == "UnaryOperator" and d["op"] == "&":
+            t = strip(d["sub"])
+            words[field_name(t) or t.get("name")] = g.positions(c)
+    fl = words.get("flush_flag_tmp") or []
+    rm = words.get("logger_removal_flag_tmp") or []
+    en = facts.enum("quill::MacroMetadata::Event", "A")
+    if not ind or not fl or not rm or not en:
+        raise AnalysisBroken("_populate_transit_event_from_frontend_queue: decoder call / control words / Event enum not found")
+    from rules.common import reach_under_enum
+    names = [n for (n, _v) in en["enumerators"]]
+    pb = npos(dec, dec.calls(r"TransitEventBuffer::push_back$"))
+    table, bad = {}, []
+    for e in names:
+        r_ = reach_under_enum(g, r"MacroMetadata::event$", names, e)
+        got = tuple(k for k, ps in (("decoder", ind), ("flush-word", fl), ("removal-word", rm)) if any(p_ in r_ for p_ in ps))
+        table[e] = got
+        want = ("flush-word",) if e == "Flush" else ("removal-word",) if e == "LoggerRemovalRequest" else ("decoder",)
+        # ... and nothing is buffered for this kind without its own way of decoding
+        own = {"decoder": ind, "flush-word": fl, "removal-word": rm}[want[0]]
+        from rules.common import inconsistent_edges
+        skipped = g.exists_path([g.entry_node], pb, avoid_nodes=own, avoid_edges=inconsistent_edges(g, r"MacroMetadata::event$", names, e))
+        if got != want or skipped:
+            bad.append("%s: %s%s" % (e, got, " (push_back reachable without it)" if skipped else ""))
+    ctx.floor("C04.R3g", "Event enumerators", len(names), 6)
+    ctx.ob("C04.R3g", "decode:record-kinds", not bad,
+           "exhaustive over MacroMetadata::Event, deciding every test of event() under the assumption 'event() is E': the argument decoder "
+           "stored in the header is what decodes every kind except Flush (exactly its flag word) and LoggerRemovalRequest (exactly its "
+           "flag word and the logger name), and no kind is buffered without its own decoding step (%s)" % ("; ".join(bad) or "table as expected"), fn=dec)
+    pop = npos(dec, dec.calls(r"BackendWorker::_populate_formatted_log_message$"))
+    ok = bool(pop) and not g.exists_path(ind, pb, avoid_nodes=pop) and all(g.dominates(ind, p_) for p_ in pop)
+    ctx.ob("C04.R3h", "decode:statement-gets-its-text", ok,
+           "after the arguments were decoded every path to push_back formats the message (_populate_formatted_log_message), and the "
+           "message is never formatted before the arguments of this record were decoded", fn=dec)
 
 
 def norm_ty(t):
